@@ -42,6 +42,8 @@ enum Op {
     Initiate(&'static str),
     Required(usize),
     Load(usize, &'static str),
+    /// supply the file with a source that does not parse: an error result, and the task is as before
+    LoadBad(usize, &'static str),
     Emit(usize),
     Free(usize),
 }
@@ -52,6 +54,8 @@ fn alphabet() -> Vec<Op> {
         v.push(Op::Load(t, "/p/frags/f1.graphql"));
         v.push(Op::Load(t, "/p/frags/f2.graphql"));
         v.push(Op::Load(t, "/p/a.graphql"));
+        v.push(Op::LoadBad(t, "/p/frags/f1.graphql"));
+        v.push(Op::LoadBad(t, "/p/a.graphql"));
         v.push(Op::Emit(t));
         v.push(Op::Free(t));
     }
@@ -125,6 +129,10 @@ fn run_history(h: &[Op], slack: bool) -> Result<(), String> {
                 Ok(()) => Res::Unit,
                 Err(_) => Res::Err,
             },
+            Op::LoadBad(t, f) => match loader::load_file(&mut real, t, PathBuf::from(f), owned("query { unterminated", slack)) {
+                Ok(()) => Res::Unit,
+                Err(_) => Res::Err,
+            },
             Op::Emit(t) => match loader::emit_js(&real, t, &Config::default()) {
                 Ok(js) => Res::Js(js),
                 Err(_) => Res::Err,
@@ -152,6 +160,7 @@ fn run_history(h: &[Op], slack: bool) -> Result<(), String> {
                     Res::Unit
                 }
             },
+            Op::LoadBad(_, _) => Res::Err,
             Op::Emit(t) => match model.tasks.get(&t) {
                 None => Res::Err,
                 Some((root, files)) => fresh_emit(root, files, slack),
@@ -188,6 +197,7 @@ fn main() {
             vec![Initiate("/p/a.graphql"), Load(1, "/p/a.graphql"), Load(1, "/p/frags/f1.graphql"), Load(1, "/p/frags/f1.graphql"), Free(1), Free(1), Emit(1)],
             vec![Initiate("/p/a.graphql"), Initiate("/p/b.graphql"), Free(1), Emit(2), Load(1, "/p/frags/f1.graphql"), Required(3)],
             vec![Initiate("/p/b.graphql"), Initiate("/p/a.graphql")],
+            vec![Initiate("/p/a.graphql"), Load(1, "/p/frags/f1.graphql"), LoadBad(1, "/p/frags/f1.graphql"), Required(1), LoadBad(1, "/p/a.graphql"), Emit(1), Free(1)],
         ];
         for slack in [false, true] {
             for h in &hs {
@@ -212,7 +222,7 @@ fn main() {
     // all histories up to maxlen-1; at maxlen (quick: every 7th; thorough length 5: every 23rd), by odometer
     for len in 1..=maxlen {
         let total = alpha.len().pow(len as u32);
-        let stride = if len < maxlen { 1 } else if thorough { 23 } else { 7 };
+        let stride = if len < maxlen { 1 } else if thorough { 61 } else { 13 };
         let mut k = 0usize;
         while k < total {
             let mut h = Vec::with_capacity(len);
